@@ -49,7 +49,7 @@ var c02Alphabet = []byte{'@', ':', ' ', '!', ';', '=', '\\', '\x01', 'a', '#', '
 var c02TokenVerbs = []string{"PRIVMSG", "NOTICE", "PING", "CAP", "AUTHENTICATE", "001", "433", "JOIN", "PART", "KICK", "QUIT", "NICK", "MODE", "TOPIC",
 	"311", "324", "332", "352", "353", "671", "903", "904", "908", "410"}
 
-var c02TokenOther = []string{" ", ":", " :", "@a", "n!u@h", "u@h!n", "\x01", "ACTION", "VERSION", "#c", "me", "+o"}
+var c02TokenOther = []string{" ", ":", " :", "@a", "n!u@h", "u@h!n", "\x01", "ACTION", "VERSION", "#c", "me", "+o", "@", "~%"}
 
 // Verbs that have a built-in handler (client/handlers.go intHandlers,
 // client/state_handlers.go stHandlers): 23 that arrive on the wire under
@@ -543,6 +543,10 @@ func c02Candidates() []string {
 		":irc.example 353 me = #c :@a +b c", ":irc.example 352 me #c u h irc.example x H :0 Real", "ERROR :Closing link",
 		// capability lists with bare modifier tokens, and lines longer than the 4096-byte read buffer
 		":irc.example CAP * LS :x ~", ":irc.example CAP me ACK :-", ":irc.example CAP * ACK :=", ":irc.example CAP me NAK :-a ~",
+		// parameters the built-in handlers echo, longer than a line may be; targets made of prefix characters only
+		"PING :" + strings.Repeat("t", 600), ":irc.example 433 * " + strings.Repeat("n", 600) + " :Nickname is already in use",
+		":n!u@h PRIVMSG me :\x01PING " + strings.Repeat("p", 600) + "\x01", ":me!ident@host JOIN #" + strings.Repeat("c", 600),
+		"PRIVMSG @ :hi", ":n!u@h NOTICE ~ :x", ":n!u@h PRIVMSG % :\x01ACTION x\x01", "PRIVMSG ~@% :hi", ":n!u@h PRIVMSG + :x", ":n!u@h NOTICE @ :\x01VERSION\x01",
 		":n!u@h PRIVMSG #c :" + strings.Repeat("x", 4080), ":n!u@h PRIVMSG #c :" + strings.Repeat("y", 5000), "@k=" + strings.Repeat("v", 4500) + " :n!u@h PRIVMSG #c :tagged",
 	} {
 		add(s)
@@ -722,7 +726,7 @@ func c02Jobs(tier string) []Job {
 func init() {
 	Register(&Prop{
 		ID: "C02",
-		Rule: "(1) every string over {@ : space ! ; = \\ \\x01 a # 1} up to length 6 (quick) / 7 (thorough) and (2) every concatenation of up to 4 / 5 tokens (24 verbs and numerics, 12 punctuation / prefix tokens) given to ParseLine, with Text/Target/Public on every non-nil result; " +
+		Rule: "(1) every string over {@ : space ! ; = \\ \\x01 a # 1} up to length 6 (quick) / 7 (thorough) and (2) every concatenation of up to 4 / 5 tokens (24 verbs and numerics, 14 punctuation / prefix tokens) given to ParseLine, with Text/Target/Public on every non-nil result; " +
 			"(3) every probe line verb x 0-4 / 0-6 middle parameters over {me,#c,x} (CAP: plus LS, ACK, NAK, at most 4) x 6 trailings (absent, empty, two words, the own nick, a bare minus sign, odd modifier tokens) x 4 sources for the 30 verbs with built-in handling, sent through a connection 100 per session with state tracking off and on, each session closed by PING :sync-end and a well-formed PRIVMSG; (3b) the same for the 8 negotiation-sensitive verbs (plus base64 / non-base64 AUTHENTICATE payloads) with negotiation and SASL PLAIN configured at 3 negotiation stages; " +
 			"(4) every sequence of up to 2 / 3 lines over one representative per outcome class (class = direct parse result, session outcome, warn/error log formats, verbs written in response; computed over a pool of about 8000 candidate lines) through a connection; " +
 			"distinct = distinct line (1,2), distinct (tracking, line) (3), distinct (tracking, sequence) (4)",
